@@ -9,8 +9,10 @@ import (
 	"os"
 	"os/exec"
 	"path/filepath"
+	"regexp"
 	"sort"
 	"strings"
+	"sync"
 )
 
 type replayResult struct {
@@ -19,6 +21,7 @@ type replayResult struct {
 	Cmd      string                   `json:"cmd"`
 	Findings []map[string]interface{} `json:"findings"`
 	Output   string                   `json:"output,omitempty"`
+	Iters    int                      `json:"iterations"`
 	Note     string                   `json:"note,omitempty"`
 }
 
@@ -89,7 +92,46 @@ func (c *checkCtx) genMessagesHarness(pkgPath string) (string, error) {
 		}
 	}
 	sort.Strings(ctors)
+	var widths, fills []string
+	if b, err := os.ReadFile(filepath.Join(V.verifDir, "contracts", "mirror", strings.TrimPrefix(pkgPath, modPath+"/"), "zz_contracts_verif.go")); err == nil {
+		cur := ""
+		per := map[string][]string{}
+		reFix := regexp.MustCompile(`seg fixed\((\w+), (\d+), (\d+), ([LR])\)`)
+		reList := regexp.MustCompile(`seg flat\(k_fix\((\d+), (\d+), ([LR])\), (\w+),`)
+		reDyn := regexp.MustCompile(`^//@\s+dyn (\w+) by \w+ in \w+ fills`)
+		seen := map[string]bool{}
+		for _, ln := range strings.Split(string(b), "\n") {
+			if strings.HasPrefix(ln, "//@ layout ") {
+				cur = strings.Fields(ln)[2]
+				continue
+			}
+			if cur == "" {
+				continue
+			}
+			if m := reFix.FindStringSubmatch(ln); m != nil && !seen[cur+"."+m[1]] {
+				seen[cur+"."+m[1]] = true
+				per[cur] = append(per[cur], fmt.Sprintf("%q: {%s, %s, %v}", m[1], m[2], m[3], m[4] == "L"))
+			}
+			if m := reList.FindStringSubmatch(ln); m != nil && !seen[cur+"."+m[4]] {
+				seen[cur+"."+m[4]] = true
+				per[cur] = append(per[cur], fmt.Sprintf("%q: {%s, %s, %v}", m[4], m[1], m[2], m[3] == "L"))
+			}
+			if m := reDyn.FindStringSubmatch(ln); m != nil {
+				fills = append(fills, fmt.Sprintf("\t%q: true,", cur+"."+m[1]))
+			}
+		}
+		var ks []string
+		for k := range per {
+			ks = append(ks, k)
+		}
+		sort.Strings(ks)
+		for _, k := range ks {
+			widths = append(widths, fmt.Sprintf("\t%q: {%s},", k, strings.Join(per[k], ", ")))
+		}
+	}
 	s := string(tmpl)
+	s = strings.ReplaceAll(s, "{{WIDTHS}}", strings.Join(widths, "\n"))
+	s = strings.ReplaceAll(s, "{{FILLS}}", strings.Join(fills, "\n"))
 	s = strings.ReplaceAll(s, "{{PKG}}", p.Pkg.Name())
 	s = strings.ReplaceAll(s, "{{CTORS}}", strings.Join(ctors, "\n"))
 	s = strings.ReplaceAll(s, "{{DYNS}}", strings.Join(dyns, "\n"))
@@ -97,30 +139,23 @@ func (c *checkCtx) genMessagesHarness(pkgPath string) (string, error) {
 	return s, nil
 }
 
-func (c *checkCtx) replay(o *Obligation) (bool, interface{}) {
+// related: the properties a harness finding may carry to count as a concrete violation of the property being checked.
+var relatedProps = map[string][]string{
+	"C01": {"C01", "C07", "C13", "C03"}, "C07": {"C07", "C01"}, "C15": {"C15"}, "C08": {"C08"}, "C09": {"C09", "C10"}, "C10": {"C10"},
+	"C11": {"C11"}, "C02": {"C02", "C01", "C13"}, "C03": {"C03"}, "C12": {"C01", "C12"}, "C13": {"C13"}, "C14": {"C14"}, "C16": {"C16"},
+	"C17": {"C17"}, "C18": {"C18"}, "C19": {"C19"}, "C20": {"C20"}, "C04": {"C04"}, "C05": {"C05"}, "C06": {"C06"},
+}
+
+// runHarness injects one harness into one package directory and runs it against the real code.
+func (c *checkCtx) runHarness(n int, pkgPath, typ string, seconds int) *replayResult {
 	V := c.V
-	pkgPath, typ := pkgOfFunc(V, o.Func)
-	if pkgPath == "" {
-		return false, &replayResult{Note: "no replay harness for this obligation (lemma or abstract statement)"}
-	}
 	lp := V.lpkgs[pkgPath]
 	if lp == nil || len(lp.GoFiles) == 0 {
-		return false, &replayResult{Note: "package not found"}
+		return &replayResult{Note: "package not found"}
 	}
 	dir := filepath.Dir(lp.GoFiles[0])
 	rel, _ := filepath.Rel(V.repo, dir)
 	isCodec := strings.HasSuffix(pkgPath, "/codec")
-	key := pkgPath + "|" + typ
-	if isCodec {
-		key = pkgPath + "|" + typ
-	}
-	if r, ok := replayCache[key]; ok {
-		return c.matches(r), r
-	}
-	if replayRuns >= 6 {
-		return false, &replayResult{Note: "replay budget of this run exhausted (6 harness runs); see the other replay files of this run"}
-	}
-	replayRuns++
 	var src string
 	var err error
 	harness := "messages_test.go.tmpl"
@@ -132,14 +167,14 @@ func (c *checkCtx) replay(o *Obligation) (bool, interface{}) {
 		src, err = c.genMessagesHarness(pkgPath)
 	}
 	if err != nil {
-		return false, &replayResult{Note: "cannot build harness: " + err.Error()}
+		return &replayResult{Note: "cannot build harness: " + err.Error()}
 	}
-	hf := filepath.Join(c.cfg.scratch, fmt.Sprintf("replay%d_test.go", replayRuns))
+	hf := filepath.Join(c.cfg.scratch, fmt.Sprintf("replay%d_test.go", n))
 	os.WriteFile(hf, []byte(src), 0o644)
-	ov := filepath.Join(c.cfg.scratch, fmt.Sprintf("overlay%d.json", replayRuns))
+	ov := filepath.Join(c.cfg.scratch, fmt.Sprintf("overlay%d.json", n))
 	ob, _ := json.Marshal(map[string]interface{}{"Replace": map[string]string{filepath.Join(dir, "zz_verif_replay_test.go"): hf}})
 	os.WriteFile(ov, ob, 0o644)
-	outFile := filepath.Join(c.cfg.scratch, fmt.Sprintf("replay%d.json", replayRuns))
+	outFile := filepath.Join(c.cfg.scratch, fmt.Sprintf("replay%d.json", n))
 	race := ""
 	if c.prop == "C19" || c.prop == "C20" {
 		race = "-race "
@@ -151,37 +186,113 @@ func (c *checkCtx) replay(o *Obligation) (bool, interface{}) {
 	if types == "" || strings.HasPrefix(types, "init") {
 		types = "*"
 	}
-	cmd.Env = append(os.Environ(), "GOFLAGS=-mod=mod", "GOPROXY=off", "VERIF_REPLAY_PROP="+c.prop, "VERIF_REPLAY_TYPES="+types, "VERIF_REPLAY_FUNC="+typ, "VERIF_REPLAY_OUT="+outFile, fmt.Sprintf("VERIF_SEED=%d", c.seed+1))
+	related := strings.Join(relatedProps[c.prop], ",")
+	cmd.Env = append(os.Environ(), "GOFLAGS=-mod=mod", "GOPROXY=off", "VERIF_REPLAY_PROP="+c.prop, "VERIF_REPLAY_RELATED="+related, "VERIF_REPLAY_TYPES="+types, "VERIF_REPLAY_FUNC="+typ,
+		"VERIF_REPLAY_OUT="+outFile, fmt.Sprintf("VERIF_SEED=%d", c.seed+1), fmt.Sprintf("VERIF_REPLAY_SECONDS=%d", seconds))
 	out, _ := cmd.CombinedOutput()
-	res := &replayResult{Harness: "/verif/replay/" + harness, Cmd: "cd /repo && " + cmdline + "   (VERIF_REPLAY_PROP=" + c.prop + " VERIF_REPLAY_TYPES=" + types + ")"}
+	res := &replayResult{Harness: "/verif/replay/" + harness, Cmd: "cd /repo && " + cmdline + "   (VERIF_REPLAY_PROP=" + c.prop + " VERIF_REPLAY_RELATED=" + related + " VERIF_REPLAY_TYPES=" + types + " VERIF_REPLAY_FUNC=" + typ + ")"}
 	if b, err := os.ReadFile(outFile); err == nil {
 		var parsed struct {
 			Findings []map[string]interface{} `json:"findings"`
+			Iters    int                      `json:"iterations"`
 		}
 		json.Unmarshal(b, &parsed)
 		res.Findings = parsed.Findings
+		res.Iters = parsed.Iters
 	} else {
 		s := string(out)
 		if len(s) > 3000 {
 			s = s[:3000]
 		}
 		res.Output = s
-		for _, marker := range []string{"fatal error:", "panic:", "out of memory", "DATA RACE", "concurrent map"} {
+		for _, marker := range []string{"test timed out", "fatal error:", "panic:", "out of memory", "DATA RACE", "concurrent map"} {
 			if strings.Contains(s, marker) {
-				res.Findings = append(res.Findings, map[string]interface{}{"property": map[string]string{"out of memory": "C10", "DATA RACE": "C20", "concurrent map": "C20"}[marker], "what": "the test process aborted: " + marker, "observed": firstLines(s, marker, 6)})
+				pr := map[string]string{"out of memory": "C10", "DATA RACE": "C20", "concurrent map": "C20", "test timed out": "C09"}[marker]
+				if pr == "" && (c.prop == "C09" || c.prop == "C17") {
+					pr = c.prop
+				}
+				res.Findings = append(res.Findings, map[string]interface{}{"property": pr, "what": "the test process aborted: " + marker, "observed": firstLines(s, marker, 6)})
 				break
 			}
 		}
-		if strings.Contains(s, "DATA RACE") {
-			res.Findings = append(res.Findings, map[string]interface{}{"property": c.prop, "what": "the race detector reported a data race", "observed": firstLines(s, "DATA RACE", 12)})
-		}
 	}
-	if strings.Contains(string(out), "DATA RACE") && len(res.Findings) == 0 {
+	if strings.Contains(string(out), "DATA RACE") {
 		res.Findings = append(res.Findings, map[string]interface{}{"property": c.prop, "what": "the race detector reported a data race", "observed": firstLines(string(out), "DATA RACE", 12)})
 	}
 	res.Found = len(res.Findings) > 0
+	return res
+}
+
+func (c *checkCtx) replay(o *Obligation) (bool, interface{}) {
+	V := c.V
+	pkgPath, typ := pkgOfFunc(V, o.Func)
+	if pkgPath == "" {
+		return false, &replayResult{Note: "no replay harness for this obligation (lemma or abstract statement)"}
+	}
+	isCodec := strings.HasSuffix(pkgPath, "/codec")
+	key := pkgPath + "|" + typ
+	if r, ok := replayCache[key]; ok {
+		return c.matches(r), r
+	}
+	if replayRuns >= 6 {
+		return false, &replayResult{Note: "replay budget of this run exhausted (6 harness runs); see the other replay files of this run"}
+	}
+	replayRuns++
+	res := c.runHarness(replayRuns*10, pkgPath, typ, 40)
+	if isCodec && !c.matches(res) {
+		// a library function: every message type of every protocol module uses it — search them too (once per run)
+		if r, ok := replayCache["*messages"]; ok {
+			res = mergeReplay(res, r)
+		} else {
+			var pkgs []string
+			for path := range V.pkgs {
+				if V.inRepo(path) && strings.HasSuffix(path, "/messages") {
+					pkgs = append(pkgs, path)
+				}
+			}
+			sort.Strings(pkgs)
+			results := make([]*replayResult, len(pkgs))
+			var wg sync.WaitGroup
+			for i, p := range pkgs {
+				wg.Add(1)
+				go func(i int, p string) {
+					defer wg.Done()
+					results[i] = c.runHarness(replayRuns*10+1+i, p, "*", 30)
+				}(i, p)
+			}
+			wg.Wait()
+			all := &replayResult{}
+			for _, r := range results {
+				all = mergeReplay(all, r)
+			}
+			replayCache["*messages"] = all
+			res = mergeReplay(res, all)
+		}
+	}
 	replayCache[key] = res
 	return c.matches(res), res
+}
+
+func mergeReplay(a, b *replayResult) *replayResult {
+	if b == nil {
+		return a
+	}
+	out := &replayResult{Harness: a.Harness, Cmd: a.Cmd, Output: a.Output, Note: a.Note}
+	out.Findings = append(append([]map[string]interface{}{}, a.Findings...), b.Findings...)
+	if b.Cmd != "" {
+		if out.Cmd != "" {
+			out.Cmd += "\n"
+			out.Harness += ", "
+		}
+		out.Cmd += b.Cmd
+		out.Harness += b.Harness
+	}
+	out.Iters = a.Iters + b.Iters
+	if b.Output != "" {
+		out.Output += b.Output
+	}
+	out.Found = len(out.Findings) > 0
+	return out
 }
 
 func firstLines(s, marker string, n int) string {
@@ -198,14 +309,9 @@ func firstLines(s, marker string, n int) string {
 
 // matches: does the harness result contain a concrete violation of the property being checked?
 func (c *checkCtx) matches(r *replayResult) bool {
-	related := map[string][]string{
-		"C01": {"C01", "C07", "C13", "C03"}, "C07": {"C07", "C01"}, "C15": {"C01", "C07", "C15"}, "C08": {"C08"}, "C09": {"C09", "C10"}, "C10": {"C10"},
-		"C11": {"C11"}, "C02": {"C02", "C01", "C13"}, "C03": {"C03"}, "C12": {"C01", "C12"}, "C13": {"C13"}, "C14": {"C14"}, "C16": {"C16"},
-		"C17": {"C17"}, "C18": {"C18"}, "C19": {"C19"}, "C20": {"C20"}, "C04": {"C04"}, "C05": {"C05"}, "C06": {"C06"},
-	}
 	for _, f := range r.Findings {
 		p, _ := f["property"].(string)
-		for _, q := range related[c.prop] {
+		for _, q := range relatedProps[c.prop] {
 			if p == q {
 				return true
 			}
@@ -229,5 +335,29 @@ func cmdReplay(args []string) int {
 	fmt.Printf("property:   %v\nobligation: %v\nproving:    %v\nstatus:     %v\nsolvers:    %v\n", m["property"], m["obligation"], m["what_is_being_proved"], m["status"], m["solver_output"])
 	rb, _ := json.MarshalIndent(m["replay"], "", " ")
 	fmt.Printf("replay against the real code:\n%s\n", rb)
+	return 0
+}
+
+// cmdHarness runs the replay harness directly (development aid; on the unchanged tree it must find nothing):
+// gocv harness <Cnn> <obligation-function, e.g. codec.ReadString or szse_bin.NewOrder.Decode> [seconds]
+func cmdHarness(args []string) int {
+	if len(args) < 2 {
+		fmt.Fprintln(os.Stderr, "usage: gocv harness <Cnn> <function> [seconds]")
+		return 2
+	}
+	V, err := LoadVerifier(envOr("VERIF_REPO", "/repo"), envOr("VERIF_DIR", "/verif"))
+	if err != nil {
+		fmt.Fprintln(os.Stderr, err)
+		return 2
+	}
+	c := &checkCtx{V: V, prop: args[0], tier: "quick", seed: seedFromEnv(), funcs: map[string]bool{}, encCache: map[string]*EncInfo{}}
+	c.cfg = &solveCfg{timeout: 10, seed: c.seed, scratch: scratchDir(), parallel: 14}
+	defer os.RemoveAll(c.cfg.scratch)
+	found, res := c.replay(&Obligation{Func: args[1]})
+	b, _ := json.MarshalIndent(res, "", " ")
+	fmt.Printf("matching finding: %v\n%s\n", found, b)
+	if found {
+		return 1
+	}
 	return 0
 }
